@@ -417,18 +417,84 @@ func firstN(b []byte, n int) []byte {
 	return b[:n]
 }
 
+// c35Clones — Config.Clone is how servers hand per-connection configs out (GetConfigForClient):
+// setting ticket keys on a clone or on its origin must not reach the other one.
+func c35Clones() *explore.Scenario {
+	return &explore.Scenario{
+		Name: "ticket-keys-of-cloned-configs",
+		Run: func(x *explore.X) (r explore.Result) {
+			states := c35Corpus()
+			ss, err := tls.ParseSessionState(states[0].bytes)
+			if err != nil {
+				r.Violate("INFRA|c35-parse", "%v", err)
+				return
+			}
+			var cs tls.ConnectionState
+			nInit := 1 + x.Choose("initial-keys", 3)
+			nNew := 1 + x.Choose("new-keys", 3)
+			onClone := x.Choose("rotate-on", 2) == 0
+			var initKeys, newKeys [][32]byte
+			for i := 0; i < nInit; i++ {
+				initKeys = append(initKeys, keyN(1+i))
+			}
+			for i := 0; i < nNew; i++ {
+				newKeys = append(newKeys, keyN(100+i))
+			}
+			what := fmt.Sprintf("origin with %d explicit keys, Clone(), then %d new keys set on the %s", nInit, nNew, map[bool]string{true: "clone", false: "origin"}[onClone])
+			base := &tls.Config{Time: peer.FixedTime}
+			base.SetSessionTicketKeys(initKeys)
+			clone := base.Clone()
+			sealedOld, _ := base.EncryptTicket(cs, ss)
+			rotated, untouched := clone, base
+			if !onClone {
+				rotated, untouched = base, clone
+			}
+			rotated.SetSessionTicketKeys(newKeys)
+			sealedNew, _ := rotated.EncryptTicket(cs, ss)
+			// the untouched Config still has exactly the initial keys
+			got := tls.VerifSessionTicketKeys(untouched)
+			if len(got) != nInit {
+				r.Violate("C35|clone|keys-of-other-config-changed", "%s: the other Config now has %d keys, had %d", what, len(got), nInit)
+			} else {
+				for i := range got {
+					if want := tls.TicketKeyFromBytes(initKeys[i]); got[i].AesKey != want.AesKey || got[i].HmacKey != want.HmacKey {
+						r.Violate("C35|clone|keys-of-other-config-changed", "%s: key %d of the other Config is no longer the one it was given", what, i)
+						break
+					}
+				}
+			}
+			if s, e := untouched.DecryptTicket(sealedOld, cs); s == nil || e != nil {
+				r.Violate("C35|clone|own-ticket-refused", "%s: the other Config no longer opens a ticket sealed with its own, still configured key (%v)", what, e)
+			}
+			if s, _ := untouched.DecryptTicket(sealedNew, cs); s != nil {
+				r.Violate("C35|clone|foreign-ticket-accepted", "%s: the other Config opens a ticket sealed with a key it was never given", what)
+			}
+			if s, e := rotated.DecryptTicket(sealedNew, cs); s == nil || e != nil {
+				r.Violate("C35|clone|rotated-config-refuses-own-ticket", "%s: %v", what, e)
+			}
+			if s, _ := rotated.DecryptTicket(sealedOld, cs); s != nil {
+				r.Violate("C35|clone|unconfigured-key-accepted", "%s: the rotated Config still opens a ticket of the replaced keys", what)
+			}
+			r.Nontrivial = true
+			r.Obs = fmt.Sprintf("viol=%d", len(r.Viol))
+			r.Class = what
+			return
+		},
+	}
+}
+
 func c35Scenarios(thorough bool) []*explore.Scenario {
 	d := 3
 	if thorough {
 		d = 5
 	}
-	return []*explore.Scenario{c35RoundTrip(thorough), c35Rotation(d), c35KeyDerivation(), c35Forged()}
+	return []*explore.Scenario{c35RoundTrip(thorough), c35Rotation(d), c35KeyDerivation(), c35Forged(), c35Clones()}
 }
 
 func init() {
 	register(&Prop{ID: "C35", Level: "exploration", Variant: "A", Scenarios: c35Scenarios,
 		Run: func(c *explore.Check, thorough bool) {
-			c.Rule = "SessionStates captured from real TLS 1.2 (EMS / no EMS) and 1.3 handshakes with and without a client certificate x Extra of 0/1/3 entries x key sets of 1-3 keys: decrypt(encrypt(s)) serialises identically; every single-bit flip (every 3rd byte for tickets > 400 B in quick), every truncation and 1-4 appended bytes yield (nil,nil); oldest configured key accepted, unconfigured key refused; every history of <=3 (5) explicit rotations and of <=5 (7) clock advances from {0,23h,25h,3d,8d} under auto-managed keys against a reference model; TicketKeyFromBytes on all single-byte-set inputs vs installed keys and SHA-512 slices; forged ClientSessionStates (constructor and setters) x secret lengths {0,1,16,31,32,33,47,48,49,64,255} x 4 versions x 5 suites x 3 ticket lengths return exactly the supplied version, suite, ticket and master secret. distinct = (state, keys) / history"
+			c.Rule = "SessionStates captured from real TLS 1.2 (EMS / no EMS) and 1.3 handshakes with and without a client certificate x Extra of 0/1/3 entries x key sets of 1-3 keys: decrypt(encrypt(s)) serialises identically; every single-bit flip (every 3rd byte for tickets > 400 B in quick), every truncation and 1-4 appended bytes yield (nil,nil); oldest configured key accepted, unconfigured key refused; every history of <=3 (5) explicit rotations and of <=5 (7) clock advances from {0,23h,25h,3d,8d} under auto-managed keys against a reference model; TicketKeyFromBytes on all single-byte-set inputs vs installed keys and SHA-512 slices; Config.Clone followed by SetSessionTicketKeys on the clone or the origin ({1,2,3} initial x {1,2,3} new keys): the other Config keeps exactly its keys; forged ClientSessionStates (constructor and setters) x secret lengths {0,1,16,31,32,33,47,48,49,64,255} x 4 versions x 5 suites x 3 ticket lengths return exactly the supplied version, suite, ticket and master secret. distinct = (state, keys) / history"
 			c.Assumptions = []string{"reference model of auto rotation: a new key every 24h on access, keys older than 7 days dropped at rotation time", "end-to-end resumption through a forged ClientSessionState (48-byte TLS 1.2 master secret) is exercised by C20; here the state itself is checked for every secret length"}
 			runAll(c, c35Scenarios(thorough), 0)
 			c.Gate(c.Total.Counters["mutated_tickets"] > 10000, "non-vacuity: %d mutated tickets", c.Total.Counters["mutated_tickets"])
